@@ -145,6 +145,9 @@ def gen_tree(rng, depth, pcontainer=0.65):
         d['optional'] = rng.sample(names, rng.randint(0, len(names)))
         if set(d['optional']) == set(names):
             del d['optional']    # "all optional" is expressed by the absent key
+        elif d['optional'] and rng.random() < 0.12:
+            # a name listed twice (lists merged from two sources): the same set of optional members
+            d['optional'].insert(rng.randrange(len(d['optional']) + 1), rng.choice(d['optional']))
     return d
 
 
